@@ -771,6 +771,14 @@ func (se *specEnv) call(n *ast.CallExpr) specVal {
 			et := a.T.Underlying().(*types.Slice).Elem()
 			p := se.evalInt(n.Args[1])
 			return specVal{Addr: &PtrV{Obj: sv.Arr, Elem: true, Idx: p, Root: et}, T: et}
+		case "bytesof":
+			// the whole content of the byte array behind a slice (footprints of opaque predicates)
+			sv, ok := se.rval(se.eval(n.Args[0])).(*SliceV)
+			if !ok {
+				se.fail("bytesof() needs a slice")
+			}
+			h := se.x.getHeapIn(se.st, elemKey(types.Typ[types.Uint8], ""), ArrSort(SInt, ArrSort(SInt, SInt)))
+			return specVal{V: Select(h, sv.Arr), T: &ghostArrayT{Type: untypedInt, elem: SInt}}
 		case "arrof":
 			sv, ok := se.rval(se.eval(n.Args[0])).(*SliceV)
 			if !ok {
@@ -965,7 +973,127 @@ func (se *specEnv) callPureVals(pf *PureFn, args []specVal) specVal {
 		}
 		n.vars[name] = a
 	}
+	if pf.Opaque {
+		return se.callOpaque(pf, n)
+	}
 	return n.evalRV(pf.Body.Expr)
+}
+
+// leafTerms flattens a spec value into SMT terms (pointers as references, slices as their
+// header, structs leaf by leaf).
+func (se *specEnv) leafTerms(sv specVal, what string) []Term {
+	v := se.rval(sv)
+	switch c := v.(type) {
+	case Term:
+		return []Term{c}
+	case *PtrV:
+		return []Term{se.x.ptrTerm(c)}
+	}
+	var out []Term
+	func() {
+		defer func() {
+			if r := recover(); r != nil {
+				se.fail("%s: value cannot be flattened", what)
+			}
+		}()
+		out = flattenVal(v, sv.T)
+	}()
+	return out
+}
+
+// callOpaque: n is the environment with the parameters bound.
+func (se *specEnv) callOpaque(pf *PureFn, n *specEnv) specVal {
+	boolT := types.Typ[types.Bool]
+	var args []Term
+	ground := true
+	for _, name := range pf.Params {
+		for _, t := range n.leafTerms(n.vars[name], "opaque "+pf.Name+": argument "+name) {
+			args = append(args, t)
+			if strings.Contains(t.S, "!q") {
+				ground = false
+			}
+		}
+	}
+	for _, r := range pf.Reads {
+		args = append(args, n.leafTerms(n.eval(r.Expr), "opaque "+pf.Name+": reads "+r.Src)...)
+	}
+	var sorts []Sort
+	for _, a := range args {
+		sorts = append(sorts, a.Sort)
+	}
+	name := "op." + pf.Name
+	se.x.ctx.declareFun(name, sorts, SBool)
+	atom := app(SBool, name, args...)
+	se.x.opaqueFootprint(pf, se)
+	if ground {
+		// unfold the definition for this object in this state
+		body, ok := n.rval(n.evalRV(pf.Body.Expr)).(Term)
+		if !ok {
+			se.fail("opaque %s: body is not boolean", pf.Name)
+		}
+		se.cur.assume(Eq(atom, body))
+	}
+	return specVal{V: atom, T: boolT}
+}
+
+// opaqueFootprint emits, once per function context, the obligation that justifies the
+// encoding of an opaque predicate as a function of its footprint: in any two heaps that agree
+// on the declared reads, the body has the same truth value.
+func (x *exec) opaqueFootprint(pf *PureFn, se *specEnv) {
+	if x.ctx.opaqueDone == nil {
+		x.ctx.opaqueDone = map[string]bool{}
+	}
+	if x.ctx.opaqueDone[pf.Name] {
+		return
+	}
+	x.ctx.opaqueDone[pf.Name] = true
+	mkState := func() *State {
+		x.ctx.nfresh++
+		return &State{heap: map[string]Term{}, epoch: x.ctx.nfresh, cells: map[int]Val{}, W: se.st.W, pcSet: map[string]bool{}}
+	}
+	sA, sB := mkState(), mkState()
+	var params []specVal
+	for i, name := range pf.Params {
+		t := x.ctx.fresh("fp."+name, SInt)
+		var pt types.Type
+		probe := &specEnv{x: x, pkg: x.e.TPkg[pf.Pkg], vars: map[string]specVal{}, st: sA, cur: sA, nq: se.nq, what: "opaque " + pf.Name}
+		if i < len(pf.PTypes) {
+			pt = probe.resolveType(pf.PTypes[i])
+		}
+		if pt == nil {
+			panic(specErr{"opaque " + pf.Name + ": cannot resolve parameter type " + pf.PTypes[i]})
+		}
+		if _, isPtr := pt.(*types.Pointer); isPtr {
+			params = append(params, specVal{V: &PtrV{Obj: t, Root: deref(pt)}, T: pt})
+		} else {
+			params = append(params, specVal{V: t, T: pt})
+		}
+	}
+	eval := func(st *State) ([]Term, Term) {
+		n := &specEnv{x: x, pkg: x.e.TPkg[pf.Pkg], vars: map[string]specVal{}, st: st, cur: st, nq: se.nq, what: "opaque " + pf.Name + " (footprint)"}
+		for i, name := range pf.Params {
+			n.vars[name] = params[i]
+		}
+		var fp []Term
+		for _, r := range pf.Reads {
+			fp = append(fp, n.leafTerms(n.eval(r.Expr), "reads "+r.Src)...)
+		}
+		body, _ := n.rval(n.evalRV(pf.Body.Expr)).(Term)
+		return fp, body
+	}
+	fpA, bA := eval(sA)
+	fpB, bB := eval(sB)
+	var same []Term
+	for i := range fpA {
+		same = append(same, Eq(fpA[i], fpB[i]))
+	}
+	ob := &Obligation{
+		Fn: x.ctx.Key, Kind: "footprint", Name: x.ctx.Key + "#footprint[opaque " + pf.Name + "]",
+		PC:   append(append(append([]Term(nil), sA.pc...), sB.pc...), same...),
+		Goal: Eq(bA, bB),
+	}
+	x.ctx.Obls = append(x.ctx.Obls, ob)
+	x.ctx.note("opaque predicate " + pf.Name + ": a function of its arguments and declared footprint (checked: obligation footprint)")
 }
 
 // resolveType resolves a type written in a pure function header ("*segment", "uint64", "log.Log").
